@@ -87,8 +87,8 @@ type c11Key struct {
 }
 
 func c11KeyPool() []c11Key {
-	long24 := "zzzzzzzzzzzzzzzzzzzzzzzz"                    // 24 bytes: 2-byte head 78 18
-	long23 := "aaaaaaaaaaaaaaaaaaaaaaa"                     // 23 bytes: head 77
+	long24 := "zzzzzzzzzzzzzzzzzzzzzzzz" // 24 bytes: 2-byte head 78 18
+	long23 := "aaaaaaaaaaaaaaaaaaaaaaa"  // 23 bytes: head 77
 	mk := func(name string, ref []byte, f func(e *cbor.Encoder) error) c11Key { return c11Key{name, f, ref} }
 	return []c11Key{
 		mk("u1", refcbor.EncUint(1), func(e *cbor.Encoder) error { return e.EncodeUint(1) }),
@@ -466,7 +466,7 @@ func init() {
 	register(&mc.Property{
 		ID:    "C11",
 		Level: "model_checking",
-		Rule: "choice-tree enumeration of encoder inputs: every uint64/int64 within +-64 of each head boundary and every 2^k+-1; byte/text strings of every length 0..300 and around 65536; all text contents of length <=3 over a 12-byte UTF-8 boundary alphabet; every subset of <=4 keys from a pool of 10 mixed-type keys in every permutation plus every duplicated key, three value styles; all encoder call sequences up to depth 3 (quick) / 4 (thorough) over an 11-call menu. A case is non-trivial when it produced output that was compared byte-for-byte with the independent canonical encoder (or was a refused input); distinct by output/input hash.",
+		Rule:  "choice-tree enumeration of encoder inputs: every uint64/int64 within +-64 of each head boundary and every 2^k+-1; byte/text strings of every length 0..300 and around 65536; all text contents of length <=3 over a 12-byte UTF-8 boundary alphabet; every subset of <=4 keys from a pool of 10 mixed-type keys in every permutation plus every duplicated key, three value styles; all encoder call sequences up to depth 3 (quick) / 4 (thorough) over an 11-call menu. A case is non-trivial when it produced output that was compared byte-for-byte with the independent canonical encoder (or was a refused input); distinct by output/input hash.",
 		Assumptions: []string{
 			"refcbor (independent canonical encoder/decoder written from RFC 8949) is correct",
 			"values between the enumerated boundary windows behave like their neighbours in the same head-size class (small-scope hypothesis)",
